@@ -59,9 +59,9 @@ func reflectMap(v interface{}) (reflect.Value, bool) {
 		return rv, false
 	}
 	rt := rv.Type()
-	for rv.Kind() == reflect.Interface || rv.Kind() == reflect.Pointer {
-		if rv.IsNil() {
-			// e.g. a pointer to a nil pointer: not a map; let the caller report it
+	for n := 0; rv.Kind() == reflect.Interface || rv.Kind() == reflect.Pointer; n++ {
+		if n > maxLevel || rv.IsNil() {
+			// e.g. a pointer to a nil pointer, or a pointer that leads back to itself: not a map; let the caller report it
 			return rv, false
 		}
 		rv = rv.Elem()
